@@ -60,7 +60,7 @@ func gridOf(k *kindInfo, rng *rand.Rand, extra int) []interface{} {
 	var out []interface{}
 	add := func(v reflect.Value) { out = append(out, v.Convert(k.t).Interface()) }
 	if k.float {
-		fs := []float64{0, math.Copysign(0, -1), 1, -1, 0.5, 1.5, -2.5, 3e9, 16777216, 16777217, 1e19, -1e19,
+		fs := []float64{0, math.Copysign(0, -1), 1, -1, 0.5, 1.5, -2.5, 3e9, 16777216, 16777217, 16777218, 2147483648, 4294967296, 1e19, -1e19,
 			math.MaxFloat32, math.SmallestNonzeroFloat32, math.Inf(1), math.Inf(-1), math.NaN(), 300, 44}
 		if k.width == 64 {
 			fs = append(fs, math.MaxFloat64, math.SmallestNonzeroFloat64, 9007199254740993, 0.1)
@@ -76,7 +76,7 @@ func gridOf(k *kindInfo, rng *rand.Rand, extra int) []interface{} {
 	if k.signed {
 		min := int64(-1) << uint(k.width-1)
 		max := -(min + 1)
-		cands := []int64{0, 1, -1, 2, -2, 7, 44, 127, 128, -128, -129, 255, 256, 300, -300, 32767, 32768, -32768, 65535, 65536,
+		cands := []int64{0, 1, -1, 2, -2, 7, 44, 127, 128, -128, -129, 255, 256, 300, -300, 32767, 32768, -32768, 65535, 65536, 1 << 24, 1<<24 + 1, -(1<<24 + 1),
 			1<<31 - 1, 1 << 31, -(1 << 31), 1<<32 - 1, 1 << 32, 1<<53 + 1, min, min + 1, max, max - 1}
 		for _, c := range cands {
 			if c >= min && c <= max {
@@ -89,7 +89,7 @@ func gridOf(k *kindInfo, rng *rand.Rand, extra int) []interface{} {
 		return out
 	}
 	max := uint64(math.MaxUint64) >> uint(64-k.width)
-	cands := []uint64{0, 1, 2, 7, 44, 127, 128, 255, 256, 300, 32767, 32768, 65535, 65536, 1<<31 - 1, 1 << 31, 1<<32 - 1, 1 << 32,
+	cands := []uint64{0, 1, 2, 7, 44, 127, 128, 255, 256, 300, 32767, 32768, 65535, 65536, 1 << 24, 1<<24 + 1, 1<<31 - 1, 1 << 31, 1<<32 - 1, 1 << 32,
 		1<<53 + 1, 1<<63 - 1, 1 << 63, 1<<63 + 1, max, max - 1}
 	for _, c := range cands {
 		if c <= max {
